@@ -119,11 +119,11 @@ where
                             } else if char == "%" {
                                 // self.select_other_charset(yield_!(None));
                             } else if "()".contains(&char) {
-                                let _code = co.yield_(None);
+                                let code = co.yield_(None).unwrap_or_default();
                                 if parser_state_cloned.lock().unwrap().use_utf8 {
                                     continue;
                                 } else {
-                                    // listener.lock().unwrap().define_charset(code, char);
+                                    listener.lock().unwrap().define_charset(&code, &char);
                                 }
                             } else {
                                 listener.lock().unwrap().escape_dispatch(&char);
@@ -242,11 +242,11 @@ where
                             } else if char == "%" {
                                 // self.select_other_charset(yield_!(None));
                             } else if "()".contains(&char) {
-                                let _code = co.yield_(None);
+                                let code = co.yield_(None).unwrap_or_default();
                                 if parser_state_cloned.lock().unwrap().use_utf8 {
                                     continue;
                                 } else {
-                                    // listener.lock().unwrap().define_charset(code, char);
+                                    listener.lock().unwrap().define_charset(&code, &char);
                                 }
                             } else {
                                 listener.lock().unwrap().escape_dispatch(&char);
